@@ -154,7 +154,9 @@ def run_job(job):
                 cmd_b = (f"cd {shlex.quote(d)} && env -u MAKEFLAGS {env_b} setarch x86_64 -R taskset -c "
                          f"{my_cpu()} {shlex.quote(SIM_WILD)} " + " ".join(shlex.quote(x) for x in argv_b) +
                          f" > {shlex.quote(os.path.join(ctl, 'b.stdout'))} 2> "
-                         f"{shlex.quote(os.path.join(ctl, 'b.stderr'))}; echo $? > {shlex.quote(b_status)}")
+                         f"{shlex.quote(os.path.join(ctl, 'b.stderr'))}; echo $? > {shlex.quote(b_status + '.tmp')}; "
+                         # (renamed into place so that nobody ever reads a half-written status file)
+                         f"mv {shlex.quote(b_status + '.tmp')} {shlex.quote(b_status)}")
                 if sc["mode"] == "atomic":
                     _write_script(run_b, [cmd_b])
                     faults_a = [f"cmd@{sc['p1']}@sh {run_b}"]
